@@ -467,19 +467,27 @@ def standard_run(pid, tier, seed, spec):
     if not okm:
         mism, err = [], 'model does not build: ' + logm[-1200:]
     else:
-        mism, err = run_mismatches(spec['preamble'], spec['run_fn'], [p for _i, p in live], spec['in_type'],
-                                   shard=spec.get('shard', 300))
-        mism = [live[j][0] for j in mism]
+        # evaluate under the build lock, after making sure the generated table and the model objects are still the
+        # ones of THIS run (a concurrent check may have regenerated Gen/Tables.v from another tree meanwhile)
+        with build_lock():
+            regen_tables()
+            okm2, logm2 = make(spec['model_vos'] + ['Base/Flat'])
+            if not okm2:
+                mism, err = [], 'model does not build: ' + logm2[-1200:]
+            else:
+                mism, err = run_mismatches(spec['preamble'], spec['run_fn'], [p for _i, p in live], spec['in_type'],
+                                           shard=spec.get('shard', 300))
+                mism = [live[j][0] for j in mism]
+                if mism:
+                    smallest = min(mism, key=lambda i: len(json.dumps(cases[i], default=str)))
+                    mo, _e = model_output(spec['preamble'], spec['run_fn'], pairs[smallest][0])
+                    r.broken_obligation('correspondence',
+                                        '%s model vs implementation: %d of %d cases differ' % (pid, len(mism), len(live)),
+                                        json.dumps({'case': cases[smallest], 'impl_observed': obs[smallest],
+                                                    'impl_flat': spec['expected'](cases[smallest], obs[smallest]),
+                                                    'model_flat': mo}, default=str))
     if err:
         r.broken_obligation('correspondence', '%s: the model could not be evaluated' % pid, err)
-    if mism:
-        smallest = min(mism, key=lambda i: len(json.dumps(cases[i], default=str)))
-        mo, _e = model_output(spec['preamble'], spec['run_fn'], pairs[smallest][0])
-        r.broken_obligation('correspondence',
-                            '%s model vs implementation: %d of %d cases differ' % (pid, len(mism), len(live)),
-                            json.dumps({'case': cases[smallest], 'impl_observed': obs[smallest],
-                                        'impl_flat': spec['expected'](cases[smallest], obs[smallest]),
-                                        'model_flat': mo}, default=str))
     if r.broken and not r.violations:
         rng2 = random.Random(seed + 1)
         extra = spec.get('search_quick', 3000) if tier == 'quick' else spec.get('search_thorough', 50000)
